@@ -530,6 +530,10 @@ def _spec_item(x):
     if isinstance(x, VList):
         if x.obj.items is not None and all(const_of(e)[0] for e in x.obj.items):
             return ("advlist", tuple(const_of(e)[1] for e in x.obj.items))
+        el = x.obj.elem
+        if x.obj.items is None and el is not None and num_term(el) is not None:
+            rng = getattr(x.obj, "comp_iter", None)
+            return ("advcomp", num_term(el), rng)
         return ("adv", T.sym("list?"))
     if isinstance(x, VUnknown):
         return ("unk", x.tag)
